@@ -301,6 +301,14 @@ def ref_step(desc, vals, pars, opts=None):
         # inflow: turn-rate share of the node's total flow
         sb = sum(m["beta"] for m in outs[up])
         q0 = l["beta"] / sb * Qn[up]
+        if desc.get("split_rule") == "absolute":
+            # a user-defined engine's own node model (C13): q = beta * Q wherever the block layer asks the engine
+            # for the split (several entering links, or one entering and several leaving ones); elsewhere the
+            # whole node flow goes into the single leaving link
+            if len(ins[up]) >= 2 or (len(ins[up]) == 1 and len(outs[up]) >= 2):
+                q0 = l["beta"] * Qn[up]
+            else:
+                q0 = Qn[up]
         if Vn[up] is Singular:
             raise Singular("merge with zero total inflow")
         v0 = v[0] if Vn[up] is None else Vn[up]
